@@ -100,7 +100,7 @@ def _csvhead(nrow, ncol, comment, source_file,
 
         # Python config
         head.append(f"# work_dir : {os.getcwd()}")
-        head.append(f"# python_environment {os.name}")
+        head.append(f"# python_environment : {os.name}")
         version = sys.version.replace("\n", " ")
         head.append(f"# python_version : {version}")
         head.append(f"# pandas_version : {pd.__version__}")
